@@ -237,6 +237,14 @@ def has_symbols(g):
     return any(isinstance(p, dict) and ("e" in p or "sym" in p) for p in g.get("p", []))
 
 
+def has_exact_params(g):
+    """Rational / pi-multiple parameters: sympy then keeps the gate matrix exact, and powers of exact matrices
+    take seconds to evaluate (RH(5/7)^-2: 3 s per evaluation)."""
+    if "of" in g:
+        return has_exact_params(g["of"])
+    return any(isinstance(p, dict) and ("rat" in p or "pi" in p or "sf" in p) for p in g.get("p", []))
+
+
 def has_wrapper(g, w):
     while "of" in g:
         if g["w"] == w:
@@ -254,9 +262,9 @@ def rand_gate(r, max_arity=3, wrappers=0.3, depth=2, powexp=True, direct=0.2, al
         choices = ["dag"]
         if gate_arity(g) < max_arity:
             choices += ["ctrl", "ctrl"]
-        if powexp and not has_symbols(g) and (multi_pow or not has_wrapper(g, "pow")):
+        if powexp and not has_symbols(g) and not has_exact_params(g) and (multi_pow or not has_wrapper(g, "pow")):
             choices += ["pow"]
-        if allow_exp and not has_symbols(g):
+        if allow_exp and not has_symbols(g) and not has_exact_params(g):
             choices += ["exp"]
         w = r.choice(choices)
         spec = {"w": w, "of": g}
